@@ -194,6 +194,8 @@ def features(ast) -> tuple:
                                 f.add("two_breaks_one_decision")
                             if any(len(b.items) == 1 for b in nb):
                                 f.add("empty_break")
+                                if len(nb) >= 2:
+                                    f.add("empty_break_beside_break")
                     for x in body:
                         if isinstance(x, Fork):
                             for b in x.branches:
@@ -255,4 +257,67 @@ def corpus(repo):
                 "multiple_same_event"):
             continue
         out.append((os.path.relpath(p, root), text))
+    return out
+
+
+# --------------------------------------------------------------------------
+# small exhaustive family around loops and breaks
+# --------------------------------------------------------------------------
+def loop_shapes():
+    """Every combination of: prefix event or none; loop at top level / in an
+    AND branch / in an XOR branch; event after the loop or none; body head
+    (event; event + inner loop directly in front of the decision; event +
+    inner loop + event; event + AND fork + event; event + XOR fork + event);
+    break branches with (0), (1), (2), (1,1), (0,1) events or no break at
+    all; one or two continuing branches; an event after the decision or
+    none.  1320 definitions with distinct names; returned as (tag, ast)."""
+    import itertools
+    out = []
+    heads = ("ev", "loop_adjacent", "loop_sep", "and", "xor")
+    breaks = ((), (0,), (1,), (2,), (1, 1), (0, 1))
+    for pre, ctx, post, head, brk, cont, tail in itertools.product(
+            (1, 0), ("top", "AND", "XOR"), (1, 0), heads, breaks, (1, 2),
+            (0, 1)):
+        if not brk and cont == 2 and tail == 0 and head == "ev":
+            pass
+        n = [0]
+
+        def ev():
+            n[0] += 1
+            return Ev(f"E{n[0]}")
+        items = [ev()] if pre else []
+        body = [ev()]
+        if head == "loop_adjacent":
+            body.append(Loop(Seq((ev(),))))
+        elif head == "loop_sep":
+            body += [Loop(Seq((ev(),))), ev()]
+        elif head in ("and", "xor"):
+            body += [Fork(head.upper(), (Seq((ev(),)), Seq((ev(),)))), ev()]
+        if brk:
+            branches = [Seq((ev(),)) for _ in range(cont)]
+            for k in brk:
+                branches.append(Seq(tuple([ev() for _ in range(k)]
+                                          + [Break()])))
+            body.append(Fork("XOR", tuple(branches)))
+            if tail:
+                body.append(ev())
+        else:
+            if head == "loop_adjacent":
+                continue            # same as loop_sep without a decision
+            if cont == 2 or tail:
+                continue            # no decision: one variant is enough
+        loop = Loop(Seq(tuple(body)))
+        inner = [loop] + ([ev()] if post else [])
+        if ctx == "top":
+            if not pre and not items:
+                items = []
+            items += inner
+        else:
+            if not pre:
+                continue            # fork needs an event in front (F)
+            other = Seq((ev(),))
+            items.append(Fork(ctx, (Seq(tuple([ev()] + inner)), other)))
+            items.append(ev())
+        tag = f"pre{pre}-{ctx}-post{post}-{head}-brk{brk}-c{cont}-t{tail}"
+        out.append((tag, Seq(tuple(items))))
     return out
